@@ -293,6 +293,19 @@ func applyMut(b []byte, m Mut) []byte {
 		out := append([]byte{}, b...)
 		out[mod(m.A, len(b))] = byte(mod(m.B, 256))
 		return out
+	case "insline":
+		// the line S put in front of line A (after the last line when A is the line count)
+		ls := lineSpans(b)
+		line := []byte(m.S + "\n")
+		k := mod(m.A, len(ls)+1)
+		if k == len(ls) {
+			out := append([]byte{}, b...)
+			if len(out) > 0 && out[len(out)-1] != '\n' {
+				out = append(out, '\n')
+			}
+			return append(out, line...)
+		}
+		return replaceSpan(b, [2]int{ls[k][0], ls[k][0]}, line)
 	case "insert":
 		at := mod(m.A, len(b)+1)
 		return replaceSpan(b, [2]int{at, at}, []byte(m.S))
